@@ -22,6 +22,7 @@ BOUND = ("dimension-wise: d=2 with (lmin,lmax) in {(1,2),(1,3),(2,3)}, d=3 with 
          "TrapezoidalGrid with boundary; domains [0,1]^d and [-0.5,1.5]^d; driver component: 40 x (Genz family member, random smooth function, or a sum of narrow one-dimensional Gaussians at random corners), norms {1,2,inf}; "
          "a systematic core (each version x boundary on/off, no rebalancing, d=2, (1,3), corner-peak driver) plus seeded random configurations; every stop index of histories with <=8 (d=3: <=4) refinement steps, each reached by a fresh run with max_evaluations (quick: first, last and two "
          "other stop indices); probe points: 8 random + the full interior lattice of the initial level; fixed anchor cases run first (the two known losses, the clean default, and an initial level 8 with refinement next to one boundary only: more than 128 points per dimension, sampled basis); extend-split core with split_single_dim and direction-symmetric drivers; seeded pseudo-random selection")
+BOUND += "; fault / magnitude additions: four fixed anchor cases on the box [0,5e-5]x[0,1e-4] (dimension-wise and extend-split, first and a later stop); absolute tolerance relative to the box volume"
 RULE = BOUND + "; a case is one (configuration, driver, stop limit); non-trivial = at least one refinement step before the stop"
 CLAUSES = {
     "B.int.hat": "dimension-wise, standard basis: at the stop every component carrying a hierarchical hat basis function of the initial sparse-grid space has its analytic integral (rel 1e-10 / abs 1e-13)",
